@@ -129,6 +129,23 @@ def run(tier, seed, replay=None):
                       "sel_mode": parse_sel_mode(a["sel_mode"]), "sel_range": parse_sel_range(a["sel_range"])})
         midx.append(i)
     mres = dict(zip(midx, batch(model_driver, mreqs)))
+    # ---- visual-block selections: the editor's windows vs the Lean model of get_block_select_windows
+    breqs, bidx = [], []
+    for i, (c, x) in enumerate(zip(cases, resp)):
+        if "steps" not in x:
+            continue
+        a = x["steps"][-1]["after"]
+        mm = re.search(r"Block \{.*anchor_pos: (\d+)", a["sel_mode"] or "")
+        if not mm or not a["sel_range"] or "\r" in a["buf"]:
+            continue
+        breqs.append({"op": "block_windows", "gs": graphemes_of(a["buf"], a["fresh"]), "anchor": int(mm.group(1)), "cur": a["cur"]["value"]})
+        bidx.append(i)
+    for i, m in zip(bidx, batch(model_driver, breqs)):
+        a = resp[i]["steps"][-1]["after"]
+        got = [[int(p), int(q)] for p, q in re.findall(r"\((\d+), (\d+)\)", a["sel_range"])]
+        R.count("block_windows_model_compared")
+        if m.get("windows") != got:
+            R.disagreement("block windows: model %s impl %s (anchor/cursor %s/%s in %r)" % (canon(m.get("windows", m))[:120], got[:8], breqs[bidx.index(i)]["anchor"], a["cur"]["value"], a["buf"][:60]), cases[i])
     for i, (c, x) in enumerate(zip(cases, resp)):
         R.count("kind." + c["kind"])
         if "steps" not in x:
